@@ -57,6 +57,29 @@ func init() {
 			{Name: "Wake persists before storing the new state", ExpectRule: "C30.R4", ExpectKey: "Wake", Edits: []Edit{
 				{File: sl, Old: "\t// Update state\n\tm.state.Store(StateAwake)\n\tsleepDuration := time.Since(m.sleepStartTime)\n\tm.sleepStartTime = time.Time{}\n\tm.nextPollTime = time.Time{}\n\n\t// Clear queue\n\tm.queue.Clear()\n\n\t// Persist state\n\tif m.cfg.PersistState {\n\t\tif err := m.persistState(); err != nil {\n\t\t\tm.logger.Debug(\"failed to persist sleep state\", logging.KeyError, err)\n\t\t}\n\t}\n", New: "\tif m.cfg.PersistState {\n\t\tif err := m.persistState(); err != nil {\n\t\t\tm.logger.Debug(\"failed to persist sleep state\", logging.KeyError, err)\n\t\t}\n\t}\n\n\t// Update state\n\tm.state.Store(StateAwake)\n\tsleepDuration := time.Since(m.sleepStartTime)\n\tm.sleepStartTime = time.Time{}\n\tm.nextPollTime = time.Time{}\n\n\t// Clear queue\n\tm.queue.Clear()\n"},
 			}},
+			{Name: "seeded class: stale-poll check moved in front of the state lock", ExpectRule: "C30.R1", ExpectKey: "Poll", Edits: []Edit{
+				{File: sl, Old: "\tm.stateMu.Lock()\n\tdefer m.stateMu.Unlock()\n\n\t// Only the poll that is still current may end:", New: "\tif m.GetState() != StatePolling {\n\t\treturn nil\n\t}\n\tm.stateMu.Lock()\n\tdefer m.stateMu.Unlock()\n\tif false {\n\t\treturn nil\n\t}\n\n\t// Only the poll that is still current may end:"},
+				{File: sl, Old: "\tif m.state.Load().(State) != StatePolling {\n\t\treturn nil\n\t}\n\n\t// Call poll end callback", New: "\t// Call poll end callback"},
+			}},
+			{Name: "seeded class: admission by a shared transition table lets Sleep through while polling", ExpectRule: "C30.R2", ExpectKey: "Sleep", Edits: []Edit{
+				{File: sl, Old: "\tif currentState == StateSleeping || currentState == StatePolling {\n\t\treturn ErrAlreadySleeping\n\t}", New: "\tif !c30CanTransition(currentState, StateSleeping) {\n\t\treturn ErrAlreadySleeping\n\t}"},
+				{File: sl, Old: "// Wake transitions the agent out of sleep mode.\n", New: "var c30Transitions = map[State][]State{\n\tStateAwake:    {StateSleeping},\n\tStateSleeping: {StatePolling, StateAwake},\n\tStatePolling:  {StateSleeping, StateAwake},\n}\n\nfunc c30CanTransition(from, to State) bool {\n\tfor _, next := range c30Transitions[from] {\n\t\tif next == to {\n\t\t\treturn true\n\t\t}\n\t}\n\treturn false\n}\n\n// Wake transitions the agent out of sleep mode.\n"},
+			}},
+			{Name: "state forced from outside the critical sections by an exported setter", ExpectRule: "C30.R1", Edits: []Edit{
+				{File: sl, Old: "// GetState returns the current sleep state.\nfunc (m *Manager) GetState() State {", New: "// ForceAwake marks the manager awake.\nfunc (m *Manager) ForceAwake() {\n\tm.state.Store(StateAwake)\n}\n\n// GetState returns the current sleep state.\nfunc (m *Manager) GetState() State {"},
+			}},
+			{Name: "rewrite: admission through a per-request predicate helper", Edits: []Edit{
+				{File: sl, Old: "\tif currentState == StateSleeping || currentState == StatePolling {\n\t\treturn ErrAlreadySleeping\n\t}", New: "\tif !c30MaySleep(currentState) {\n\t\treturn ErrAlreadySleeping\n\t}"},
+				{File: sl, Old: "// Wake transitions the agent out of sleep mode.\n", New: "func c30MaySleep(s State) bool { return s == StateAwake }\n\n// Wake transitions the agent out of sleep mode.\n"},
+			}},
+			{Name: "rewrite: Wake and Poll admission through constant lookup tables", Edits: []Edit{
+				{File: sl, Old: "\tif currentState == StateAwake {\n\t\treturn ErrNotSleeping\n\t}", New: "\tif !c30WakeFrom[currentState] {\n\t\treturn ErrNotSleeping\n\t}"},
+				{File: sl, Old: "\tif currentState != StateSleeping {\n\t\tm.stateMu.Unlock()\n\t\treturn nil // Silently skip if not sleeping\n\t}", New: "\tif !c30Allowed(currentState, StatePolling) {\n\t\tm.stateMu.Unlock()\n\t\treturn nil // Silently skip if not sleeping\n\t}"},
+				{File: sl, Old: "// Wake transitions the agent out of sleep mode.\n", New: "var c30WakeFrom = map[State]bool{StateSleeping: true, StatePolling: true}\n\nvar c30Edges = map[State][]State{\n\tStateAwake:    {StateSleeping},\n\tStateSleeping: {StatePolling, StateAwake},\n\tStatePolling:  {StateSleeping, StateAwake},\n}\n\nfunc c30Allowed(from, to State) bool {\n\tfor _, next := range c30Edges[from] {\n\t\tif next == to {\n\t\t\treturn true\n\t\t}\n\t}\n\treturn false\n}\n\n// Wake transitions the agent out of sleep mode.\n"},
+			}},
+			{Name: "poll callback disconnects later from a goroutine", ExpectRule: "C30.R3", ExpectKey: "DisconnectAll", Edits: []Edit{
+				{File: ag, Old: "\ta.sleepMgr.RunIfPolling(func() {\n\t\t// Disconnect again (still sleeping)\n\t\tif err := a.peerMgr.DisconnectAll(); err != nil {", New: "\tgo func() {\n\t\ttime.Sleep(a.cfg.Sleep.PollDuration / 10)\n\t\tif a.sleepMgr.IsSleeping() {\n\t\t\ta.peerMgr.DisconnectAll()\n\t\t}\n\t}()\n\ta.sleepMgr.RunIfPolling(func() {\n\t\t// Disconnect again (still sleeping)\n\t\tif err := a.peerMgr.DisconnectAll(); err != nil {"},
+			}},
 			{Name: "rewrite: Sleep guard as a switch, explicit unlocks", Edits: []Edit{
 				{File: sl, Old: "\tcurrentState := m.state.Load().(State)\n\tif currentState == StateSleeping || currentState == StatePolling {\n\t\treturn ErrAlreadySleeping\n\t}", New: "\tswitch m.GetState() {\n\tcase StateAwake:\n\tdefault:\n\t\treturn ErrAlreadySleeping\n\t}"},
 			}},
@@ -90,6 +113,14 @@ type c30Ctx struct {
 	names    map[int64]string
 	getters  map[*ssa.Function]bool // small functions that only read the state
 	persistF map[*ssa.Function]bool
+	tables   map[string]map[int64]c30Row // constant package-level tables (map[State]... literals)
+}
+
+// c30Row is one entry of a constant table: a slice of constants or a single constant.
+type c30Row struct {
+	isSlice bool
+	elems   []int64
+	scalar  kit.PxVal
 }
 
 const c30Sleep = "internal/sleep"
@@ -249,6 +280,40 @@ func c30NewCtx(p *kit.Program, r *kit.Report) *c30Ctx {
 			}
 		}
 	}
+	// pure helpers (admission predicates, transition tables written as code): no stores, no
+	// calls except to getters / other pure helpers; interpreted when called
+	for changed := true; changed; {
+		changed = false
+		for _, fn := range cx.fns {
+			if cx.getters[fn] || len(fn.Blocks) == 0 || len(fn.Blocks) > 24 || fn.Parent() != nil {
+				continue
+			}
+			pure := true
+			kit.Instrs(fn, func(in ssa.Instruction) {
+				switch x := in.(type) {
+				case *ssa.Store:
+					if _, local := x.Addr.(*ssa.Alloc); !local {
+						pure = false
+					}
+				case *ssa.MapUpdate, *ssa.Send, *ssa.Go, *ssa.Defer, *ssa.Panic:
+					pure = false
+				case *ssa.Call:
+					cal := kit.CalleeOf(x)
+					if cal.Built == "len" || cal.Built == "cap" {
+						return
+					}
+					if cal.Static == nil || !(cx.getters[cal.Static]) {
+						pure = false
+					}
+				}
+			})
+			if pure {
+				cx.getters[fn] = true
+				changed = true
+			}
+		}
+	}
+	cx.tables = c30ConstTables(p, cx.fns)
 	// persist functions: write a file; plus one level of wrappers
 	for _, fn := range cx.fns {
 		for _, c := range kit.Calls(fn) {
@@ -268,7 +333,19 @@ func c30NewCtx(p *kit.Program, r *kit.Report) *c30Ctx {
 // pxConfig builds the abstract-evaluation configuration with every state load yielding s
 // (s < 0: unknown).
 func (cx *c30Ctx) pxConfig(s int64) *kit.PxConfig {
+	rowOf := func(sym string) (c30Row, bool) { // "tblrow:NAME:KEY"
+		parts := strings.Split(sym, ":")
+		if len(parts) != 3 || parts[0] != "tblrow" {
+			return c30Row{}, false
+		}
+		var k int64
+		if _, err := fmt.Sscan(parts[2], &k); err != nil {
+			return c30Row{isSlice: true}, true // missing key: empty row
+		}
+		return cx.tables[parts[1]][k], true
+	}
 	return &kit.PxConfig{
+		MaxVisits: 8,
 		Call: func(fr *kit.PxFrame, c ssa.CallInstruction, a []kit.PxVal) ([]kit.PxVal, bool) {
 			if cx.stateLoad(c) {
 				if s < 0 {
@@ -276,12 +353,87 @@ func (cx *c30Ctx) pxConfig(s int64) *kit.PxConfig {
 				}
 				return []kit.PxVal{kit.PxI(s)}, true
 			}
+			if cal := kit.CalleeOf(c); cal.Built == "len" && len(a) == 1 && a[0].K == kit.PxSym {
+				if row, ok := rowOf(a[0].Sym); ok {
+					return []kit.PxVal{kit.PxI(int64(len(row.elems)))}, true
+				}
+			}
+			return nil, false
+		},
+		Compute: func(fr *kit.PxFrame, v ssa.Value) ([]kit.PxVal, bool) {
+			switch x := v.(type) {
+			case *ssa.Lookup:
+				m, ok1 := fr.Value(x.X)
+				k, ok2 := fr.Value(x.Index)
+				if !ok1 || m.K != kit.PxSym || !strings.HasPrefix(m.Sym, "tbl:") {
+					return nil, false
+				}
+				name := strings.TrimPrefix(m.Sym, "tbl:")
+				if !ok2 || k.K != kit.PxInt {
+					return nil, false
+				}
+				row, present := cx.tables[name][k.I]
+				var val kit.PxVal
+				switch {
+				case !present:
+					if _, isSl := x.Type().Underlying().(*types.Slice); isSl || x.CommaOk {
+						val = kit.PxS("tblrow:" + name + ":none")
+					}
+					if tb, isB := x.Type().Underlying().(*types.Basic); isB {
+						if tb.Info()&types.IsBoolean != 0 {
+							val = kit.PxB(false)
+						} else if tb.Info()&types.IsInteger != 0 {
+							val = kit.PxI(0)
+						}
+					}
+				case row.isSlice:
+					val = kit.PxS(fmt.Sprintf("tblrow:%s:%d", name, k.I))
+				default:
+					val = row.scalar
+				}
+				if x.CommaOk {
+					if !present {
+						// the zero value of the element type
+						if tup, ok := x.Type().(*types.Tuple); ok {
+							if tb, isB := tup.At(0).Type().Underlying().(*types.Basic); isB {
+								if tb.Info()&types.IsBoolean != 0 {
+									val = kit.PxB(false)
+								} else if tb.Info()&types.IsInteger != 0 {
+									val = kit.PxI(0)
+								}
+							}
+						}
+					}
+					return []kit.PxVal{val, kit.PxB(present)}, true
+				}
+				return []kit.PxVal{val}, true
+			case *ssa.IndexAddr:
+				base, ok1 := fr.Value(x.X)
+				idx, ok2 := fr.Value(x.Index)
+				if ok1 && ok2 && base.K == kit.PxSym && idx.K == kit.PxInt {
+					if _, ok := rowOf(base.Sym); ok {
+						return []kit.PxVal{kit.PxS(fmt.Sprintf("tblelem:%s:%d", strings.TrimPrefix(base.Sym, "tblrow:"), idx.I))}, true
+					}
+				}
+			}
 			return nil, false
 		},
 		Load: func(fr *kit.PxFrame, sym string, at ssa.Instruction) (kit.PxVal, bool) {
 			switch {
 			case strings.HasSuffix(sym, ".cfg.Enabled"), strings.HasSuffix(sym, ".cfg.PersistState"):
 				return kit.PxB(true), true
+			case strings.HasPrefix(sym, "tblelem:"): // tblelem:NAME:KEY:IDX
+				parts := strings.Split(sym, ":")
+				if len(parts) == 4 {
+					if row, ok := rowOf("tblrow:" + parts[1] + ":" + parts[2]); ok {
+						var i int
+						if _, err := fmt.Sscan(parts[3], &i); err == nil && i >= 0 && i < len(row.elems) {
+							return kit.PxI(row.elems[i]), true
+						}
+					}
+				}
+			case strings.HasPrefix(sym, "global:") && cx.tables[strings.TrimPrefix(sym, "global:")] != nil:
+				return kit.PxS("tbl:" + strings.TrimPrefix(sym, "global:")), true
 			case strings.HasPrefix(sym, "global:"):
 				if v, ok := at.(ssa.Value); ok && kit.IsErrorType(v.Type()) {
 					return kit.PxS(sym), true
@@ -297,6 +449,134 @@ func (cx *c30Ctx) pxConfig(s int64) *kit.PxConfig {
 		},
 		Descend: func(c ssa.CallInstruction, callee *ssa.Function) bool { return cx.getters[callee] },
 	}
+}
+
+// c30ConstTables finds package-level maps that are built once in the package initialiser from
+// constant keys and constant (or slice-of-constant) values and never written afterwards: "state
+// machine as data" tables, which the abstract evaluation can then consult exactly.
+func c30ConstTables(p *kit.Program, fns []*ssa.Function) map[string]map[int64]c30Row {
+	out := map[string]map[int64]c30Row{}
+	sp := p.SSAPkg(c30Sleep)
+	if sp == nil {
+		return out
+	}
+	initFn := sp.Func("init")
+	if initFn == nil {
+		return out
+	}
+	kit.Instrs(initFn, func(in ssa.Instruction) {
+		st, ok := in.(*ssa.Store)
+		if !ok {
+			return
+		}
+		g, ok := st.Addr.(*ssa.Global)
+		if !ok {
+			return
+		}
+		mm, ok := st.Val.(*ssa.MakeMap)
+		if !ok || mm.Referrers() == nil {
+			return
+		}
+		tbl := map[int64]c30Row{}
+		valid := true
+		for _, ref := range *mm.Referrers() {
+			switch u := ref.(type) {
+			case *ssa.MapUpdate:
+				k, isc := kit.ConstInt(u.Key)
+				if !isc {
+					valid = false
+					continue
+				}
+				if sl, isSl := u.Value.(*ssa.Slice); isSl {
+					arr, isA := sl.X.(*ssa.Alloc)
+					if !isA || arr.Referrers() == nil || sl.Low != nil || sl.High != nil {
+						valid = false
+						continue
+					}
+					at, isArr := arr.Type().(*types.Pointer).Elem().Underlying().(*types.Array)
+					if !isArr {
+						valid = false
+						continue
+					}
+					elems := make([]int64, at.Len())
+					set := make([]bool, at.Len())
+					for _, ar := range *arr.Referrers() {
+						ia, isIA := ar.(*ssa.IndexAddr)
+						if !isIA || ia.Referrers() == nil {
+							continue
+						}
+						i, isc := kit.ConstInt(ia.Index)
+						if !isc || i < 0 || i >= at.Len() {
+							valid = false
+							continue
+						}
+						for _, sr := range *ia.Referrers() {
+							if es, isSt := sr.(*ssa.Store); isSt && es.Addr == ssa.Value(ia) {
+								if v, isc := kit.ConstInt(es.Val); isc {
+									elems[i], set[i] = v, true
+								} else {
+									valid = false
+								}
+							}
+						}
+					}
+					for _, b := range set {
+						if !b {
+							valid = false
+						}
+					}
+					tbl[k] = c30Row{isSlice: true, elems: elems}
+				} else if c, isC := u.Value.(*ssa.Const); isC {
+					if b, isB := kit.ConstBool(c); isB {
+						tbl[k] = c30Row{scalar: kit.PxB(b)}
+					} else if v, isI := kit.ConstInt(c); isI {
+						tbl[k] = c30Row{scalar: kit.PxI(v)}
+					} else {
+						valid = false
+					}
+				} else {
+					valid = false
+				}
+			case *ssa.Store:
+				if u.Val != ssa.Value(mm) {
+					valid = false
+				}
+			case *ssa.DebugRef:
+			default:
+				valid = false
+			}
+		}
+		if valid {
+			out[g.Name()] = tbl
+		}
+	})
+	// any write outside the initialiser invalidates a table
+	for _, fn := range fns {
+		kit.Instrs(fn, func(in ssa.Instruction) {
+			inval := func(v ssa.Value) {
+				for _, leaf := range kit.PhiLeaves(v) {
+					if u, ok := leaf.(*ssa.UnOp); ok {
+						if g, ok := u.X.(*ssa.Global); ok {
+							delete(out, g.Name())
+						}
+					}
+				}
+			}
+			switch x := in.(type) {
+			case *ssa.MapUpdate:
+				inval(x.Map)
+			case *ssa.Store:
+				if g, ok := x.Addr.(*ssa.Global); ok {
+					delete(out, g.Name())
+				}
+			case ssa.CallInstruction:
+				if b := kit.CalleeOf(x).Built; (b == "delete" || b == "clear") && len(x.Common().Args) > 0 {
+					inval(x.Common().Args[0])
+				}
+			}
+		})
+	}
+	return out
 }
 
 // statesAt computes the set of states under which `site` is reachable from the lock acquisition
@@ -855,15 +1135,8 @@ func c30PollCallback(cx *c30Ctx, r *kit.Report, guarded func(fn *ssa.Function, i
 					if g == nil || guardedValue(x) {
 						return
 					}
-					if x.Referrers() != nil {
-						for _, ref := range *x.Referrers() {
-							if _, isGo := ref.(*ssa.Go); isGo {
-								return // asynchronous work is not part of the poll's own tail
-							}
-						}
-					}
 					walk(g, d+1)
-				case *ssa.Call, *ssa.Defer:
+				case *ssa.Call, *ssa.Defer, *ssa.Go:
 					c := in.(ssa.CallInstruction)
 					if cal := kit.CalleeOf(c); cal.Static != nil && kit.FuncPkgPath(cal.Static) == pkg && reducerFn(cal.Static) == "" {
 						walk(cal.Static, d+1)
@@ -876,9 +1149,6 @@ func c30PollCallback(cx *c30Ctx, r *kit.Report, guarded func(fn *ssa.Function, i
 		for _, f := range order {
 			ord := map[string]int{}
 			for _, c := range kit.Calls(f) {
-				if _, isGo := c.(*ssa.Go); isGo {
-					continue
-				}
 				what := ""
 				if isListenerClose(c) {
 					what = "Listener.Close"
